@@ -292,6 +292,7 @@ fn make_leaf(cfg: &Cfg, leaf: Leaf, log_blowup: usize) -> Result<Node, String> {
         Leaf::Batch(shape) => {
             let mut b = CircuitBuilder::<F>::new();
             let expected = b.alloc_public_input("expected");
+            let mut extra_pub: Vec<F> = vec![];
             let (last, val) = match shape {
                 1 => {
                     let mut x = b.alloc_const(F::ZERO, "f0");
@@ -311,7 +312,9 @@ fn make_leaf(cfg: &Cfg, leaf: Leaf, log_blowup: usize) -> Result<Node, String> {
                 // exactly one / exactly two ALU operations (proven with several ALU lanes below:
                 // the prover reduces lanes for tiny tables, key generation may not)
                 3 | 4 => {
-                    let x = b.alloc_const(F::from_u32(5), "x");
+                    // a public operand: constants would be folded away by the builder
+                    let x = b.alloc_public_input("x");
+                    extra_pub.push(F::from_u32(5));
                     let y = b.alloc_const(F::from_u32(9), "y");
                     let mut r = b.add(x, y);
                     let mut rv = F::from_u32(14);
@@ -335,6 +338,10 @@ fn make_leaf(cfg: &Cfg, leaf: Leaf, log_blowup: usize) -> Result<Node, String> {
             };
             b.connect(last, expected);
             let circuit = b.build().map_err(|e| format!("{e:?}"))?;
+            let n_alu = circuit.ops.iter().filter(|o| matches!(o, p3_circuit::Op::Alu { .. })).count();
+            if (shape == 3 && n_alu != 1) || (shape == 4 && n_alu != 2) {
+                return Err(format!("batch leaf shape {shape}: {n_alu} ALU ops, not what the shape is for"));
+            }
             let (pl, al) = match shape {
                 3 => (1, 4),
                 4 => (1, 3),
@@ -348,7 +355,9 @@ fn make_leaf(cfg: &Cfg, leaf: Leaf, log_blowup: usize) -> Result<Node, String> {
                     .map_err(|e| format!("{e:?}"))?;
             let (airs, degs): (Vec<_>, Vec<usize>) = ad.into_iter().unzip();
             let mut runner = circuit.runner();
-            runner.set_public_inputs(&[val]).map_err(|e| format!("{e:?}"))?;
+            let mut pubs = vec![val];
+            pubs.extend(extra_pub);
+            runner.set_public_inputs(&pubs).map_err(|e| format!("{e:?}"))?;
             let traces = runner.run().map_err(|e| format!("{e:?}"))?;
             let pd = ProverData::from_airs_and_degrees(cfg, &airs, &degs);
             let cpd = CircuitProverData::new(pd, prim, nonprim);
@@ -857,7 +866,10 @@ fn run_history_inner(h: &History, sample: bool) -> Vec<CaseResult> {
     let mut out: Vec<CaseResult> = vec![];
     let mut nodes: Vec<(Node, String)> = vec![]; // (proof, kind name: uni | batch | layer)
     match make_leaf(&w.cfg, h.start, w.log_blowup) {
-        Ok(n) => nodes.push((n, h.start.name())),
+        Ok(n) => {
+            nodes.push((n, h.start.name()));
+            out.push(CaseResult::held("leaf-made", false).count(format!("leaf/{:?}", h.start), 1));
+        }
         Err(e) => return vec![CaseResult::inconclusive("leaf", format!("start leaf: {e}"))],
     }
     let mut cur = 0usize;
@@ -885,6 +897,7 @@ fn run_history_inner(h: &History, sample: bool) -> Vec<CaseResult> {
                     Other::Leaf(l) => match make_leaf(&w.cfg, l, w.log_blowup) {
                         Ok(n) => {
                             nodes.push((n, l.name()));
+                            out.push(CaseResult::held("leaf-made", false).count(format!("leaf/{l:?}"), 1));
                             nodes.len() - 1
                         }
                         Err(e) => {
